@@ -12,12 +12,32 @@ def re_match(pat, s):
     return re.fullmatch(pat, s) is not None
 
 
+UNIVERSE = {}
+_CODE = {}
+_builtin_eval = eval
+
+
+def eval(text, env):          # noqa: A001  (compiled once per clause; invalid-escape warnings silenced)
+    c = _CODE.get(text)
+    if c is None:
+        import warnings
+        with warnings.catch_warnings():
+            warnings.simplefilter('ignore')
+            c = _CODE[text] = compile(text, '<clause>', 'eval')
+    return _builtin_eval(c, env)
+
+
+def forall(ty, f):
+    """native reading of an unbounded quantifier: over the finite universe the harness provides (bounded)"""
+    return all(f(x) for x in UNIVERSE.get(ty, []))
+
+
 def implies(a, b):
     return (not a) or b
 
 
 def spec_env(*modules):
-    env = {'implies': implies, 're_match': re_match}
+    env = {'implies': implies, 're_match': re_match, 'forall': forall}
     for m in modules:
         mod = importlib.import_module(m) if isinstance(m, str) else m
         for k, v in vars(mod).items():
